@@ -489,6 +489,11 @@ func (vc *VC) jump(fr *Frame, st *State, from, to *ssa.BasicBlock) []Outcome {
 		for _, c := range mod {
 			vc.havocCell(st, c)
 		}
+		if len(mod) > 0 {
+			// a cut loop has changed memory: the enclosing call is not effect-free (mergePure must not
+			// fall back on the state before the call)
+			st.extWrites++
+		}
 		it := vc.freshTerm(iterName, vc.intSort(64))
 		it.Signed = true
 		st.Fact(vc.iLe(vc.idx(0), it, true))
